@@ -13,6 +13,7 @@ from rv import detmodel as D
 from rv import atoms as AT
 from rv import common as C
 from rv.props import c06
+from rv import contracts
 
 N_CASES = {'quick': 900, 'thorough': 20000}
 TIMEOUT = {'quick': 1500, 'thorough': 6 * 3600}
@@ -31,6 +32,10 @@ RULE = ('(1) pinned-argument encodings of every atom with random admissible para
         'front, solver)')
 ASSUMPTIONS = ['closed forms in rv/atoms.py are the meaning of the atoms',
                'an adversary failing to find a better point is not a proof of optimality']
+
+
+def setup_worker(ctx):
+    contracts.install_helpers(ctx, ['rso_broadcast'])
 
 
 def gen_case(rng, idx, tier):
